@@ -26,33 +26,33 @@ type fxSig struct {
 	ID     string `json:"id"`
 	Op     string `json:"op"`
 	N      int    `json:"n"`
-	Next   string `json:"next"`  // "seq" (pc+1) | "jump" (another pc of the same function)
+	Next   string `json:"next"`   // "seq" (pc+1) | "jump" (another pc of the same function)
 	Before int    `json:"before"` // data depth before, capped at 3 (0 matters: pop tolerates an empty stack)
 	DD     int    `json:"dd"`     // change of the data stack depth
 	DS     int    `json:"ds"`     // change of the scope stack depth
 	Count  int    `json:"count"`
-	Text   string `json:"text"`   // the instruction as the VM prints it (first occurrence)
-	Src    string `json:"src"`    // program it was first seen in
-	Setup  string `json:"setup"`  // "" | "tr" | "demo": what the interpreter was given before the program ran
+	Text   string `json:"text"`  // the instruction as the VM prints it (first occurrence)
+	Src    string `json:"src"`   // program it was first seen in
+	Setup  string `json:"setup"` // "" | "tr" | "demo": what the interpreter was given before the program ran
 }
 
 type fxStep struct {
-	fn     *zygo.SexpFunction
-	pc     int
-	d, s   int
-	a      int
-	op     string
-	n      int
-	text   string
-	last   bool // the last instruction of the function as it was then: what follows is a new chunk
+	fn   *zygo.SexpFunction
+	pc   int
+	d, s int
+	a    int
+	op   string
+	n    int
+	text string
+	last bool // the last instruction of the function as it was then: what follows is a new chunk
 }
 
 type fxCollector struct {
-	sigs   map[string]*fxSig
-	lists  map[*zygo.SexpFunction]*zygo.VerifListing
-	prev   *fxStep
-	src    string
-	nsteps int
+	sigs      map[string]*fxSig
+	lists     map[*zygo.SexpFunction]*zygo.VerifListing
+	prev      *fxStep
+	src       string
+	nsteps    int
 	setupName string
 }
 
